@@ -52,7 +52,7 @@ def spell(f):
 def alt_exposed(scn):
     """input class of finding C18-1 (S14): some filter is spelled as a top level alternation whose
     reading as "^" + f + "$" differs from the reading bound to both ends on a name of the pool."""
-    pool = ["v1", "v10", "xv2", "v2", "latest", "r1", "r10", "r2", "xr2"]
+    pool = ["v1", "v10", "xv2", "v2", "latest", "V2", "r1", "r10", "r2", "xr2"]
     for e in scn["conf"]["entries"]:
         if e["type"] == "image":
             continue
@@ -126,6 +126,12 @@ def drift_of(scn, events):
         if p["exit"] != (0 if e["exit"] == 0 else 1):
             out.append("exit")
         ps, os_ = set(tuple(x) for x in p["tags"]), set(tgt_side(e["tags"]))
+        if ps != os_ and all(x[3] == "H" for x in ps ^ os_) and {x[:4] for x in ps} != {x[:4] for x in os_}:
+            # only tuples of the holed image differ: whether a backup of H across repositories works depends on
+            # whether the missing layer has arrived by then - on the schedule of parallel entries and on
+            # refresh copies that recurse (see +repaired); the design predicts one of the admissible outcomes
+            out.append("+repaired")
+            break
         if {x[:4] for x in ps} != {x[:4] for x in os_} or any(x[4] == 1 and x not in os_ for x in ps):
             out.append("tags")
             DRIFT_SAMPLES.append({"id": scn["id"], "run": i + 1, "mode": e["mode"], "only_predicted": sorted(ps - os_)[:6],
